@@ -26,11 +26,32 @@ def handler_inventory(repo, lean_dir):
     return shared_state.handler_inventory(repo, lean_dir)
 
 
+def singleton_facts(repo, lean_dir):
+    """singleton.hpp -> the singleton part of Generated/SharedState.lean (translate/concurrency.py, the C20
+    translator).  Every plain handler whose command line asks for the usage reaches Singleton<Groups>
+    (Handler::usage), so the justification of that inventory entry rests on instance() being the
+    double-checked lock the C20 model covers.  A managed_thread.hpp the translator does not understand is
+    not C09's business and is ignored here (property C20 reports it)."""
+    import importlib.util
+    spec = importlib.util.spec_from_file_location("translate_concurrency",
+                                                  os.path.join(vlib.VERIF, "translate", "concurrency.py"))
+    mod = importlib.util.module_from_spec(spec)
+    spec.loader.exec_module(mod)
+    try:
+        rep = mod.translate(repo, lean_dir)
+        return {"singleton": rep.get("singleton"), "written": rep.get("written"), "changed": rep.get("changed")}
+    except ValueError as e:
+        parts = [x for x in str(e).split(" | ") if x.startswith("singleton.hpp:")]
+        if parts:
+            raise ValueError(" | ".join(parts))
+        return {"singleton": "understood", "ignored (not part of C09)": str(e)[:300]}
+
+
 PROPERTIES = {
     "C09": {
         "lean_module": "CelmaVerif.Props.C09",
         "kind": "relational",
-        "translators": [handler_inventory],
+        "translators": [handler_inventory, singleton_facts],
         "trusted": [
             "translate/shared_state.py (reach = #include/link closure of prog_args; clang-query-14 AST matchers, "
             "token scan for units clang cannot parse) -> Generated/HandlerSharedState.lean, regenerated on every run",
@@ -41,12 +62,20 @@ PROPERTIES = {
             "oracle for results",
         ],
         "assumptions": [
-            "closed world (hypothesis of C09_handler_threads_isolated): code of a handler thread reaches only objects "
-            "of its own thread or objects with static storage duration; the mutable ones of the latter are the "
-            "regenerated inventory",
+            "closed world (built into the derived thread programs of C09_plain_handler_threads_isolated, hypothesis of "
+            "C09_handler_threads_isolated_partial): a call of a handler thread reaches only objects of its own thread "
+            "or objects with static storage duration; the mutable ones of the latter are the regenerated inventory",
+            "which handler call reaches the singleton's static members is read from the regenerated call-site table "
+            "(callers of common::Singleton<T> members, guarded / unguarded; C09_singleton_callers_modelled); that the "
+            "two guards test the flag set from hfInGroup is read by hand (handler.cpp constructor initialisers)",
             "Singleton<Groups> (singleton.hpp class-statics) is reached only through Groups::instance(): handlers "
             "created with hfInGroup, usage()/--list-arg-groups, evalArgumentString without handler, "
-            "addStandardArgument - threads of the quantifier do none of these (the singleton itself is C20)",
+            "addStandardArgument.  A plain handler whose own command line contains -h / --help / --list-arg-groups "
+            "DOES reach it (Handler::usage starts with Groups::instance().evaluatedByArgGroups()): for those threads "
+            "the entry is justified by the singleton being correct - the C20 singleton obligations over the "
+            "regenerated Generated/SharedState.lean are obligations of C09 too (C09_singleton_entry_sound, translator "
+            "singleton_facts) and the `help` workloads force the first-use race through the sync points of instance(); "
+            "that the Groups object is only read on that path (evaluatedByArgGroups) is read by hand",
             "std::cout/std::cerr are only bound as default stream references; threads of the quantifier request no "
             "usage/summary/verbose output; [iostream.objects.overview]/5 for the objects themselves",
             "libstdc++, Boost.Tokenizer, boost::lexical_cast, std::regex and the allocator keep no unsynchronised "
@@ -317,6 +346,31 @@ def thread_lines(rng, t, all_seps, simple):
     return lines
 
 
+def help_case(rng, cid, nthreads, reps, forced):
+    """independent plain handlers whose own command lines contain -h (hfHelpShort | hfUsageCont, usage on a
+    stream of the thread): every thread reaches the process-wide Singleton<Groups> through Handler::usage().
+    The harness resets the singleton before every round; forced=1 holds every thread after the unlocked first
+    check of instance() until all are there (sync points of the CELMA_VERIF build)."""
+    seps = rng.sample(SEPS, min(len(SEPS), nthreads))
+    lines = []
+    for t in range(nthreads):
+        sep = seps[t % len(seps)]
+        lines.append("help t=%d" % t)
+        kind = rng.choice(["vec_int", "vec_str"])
+        lines.append("arg t=%d key=v,values kind=%s sep=%s%s" % (t, kind, sep, " check=range:1:100" if kind == "vec_int" else ""))
+        lines.append("arg t=%d key=l kind=int check=lower:5" % t)
+        vals = sep.join(str(rng.randint(1, 99)) if kind == "vec_int" else rng.choice(["a", "b,c", "x;y", "foo"]) for _ in range(3))
+        lv = rng.choice([7, 50, 3]) if rng.random() < 0.8 else 3          # 3 violates the check
+        words = ["-v", vals, "-l", str(lv)]
+        pos = rng.choice([0, 0, 2, 4])                                      # where the -h stands
+        words[pos:pos] = ["-h"]
+        if nthreads >= 3 and t > 1 and rng.random() < 0.15:
+            words = [w for w in words if w != "-h"]                        # a thread that does not ask for the usage
+        lines.append("argv t=%d %s" % (t, " ".join(words)))
+    lines.append("run n=%d reps=%d seed=%d%s" % (nthreads, reps, rng.randint(1, 10 ** 6), " forced=1" if forced else ""))
+    return Case(cid, lines)
+
+
 def workload(rng, cid, nthreads, reps, simple_ratio):
     nsep = rng.choice([2, 3, 4, len(SEPS)])
     all_seps = rng.sample(SEPS, nsep)
@@ -404,6 +458,11 @@ def generate(prop, tier, seed, scale=1):
         nrand, reps, nsat = 500, 12, 60
     if directed:
         nrand, nsat = 2 * nrand, 3 * nsat
+    nhelp = (6 if tier == "quick" else 40) * (3 if directed else 1)
+    hsizes = sorted(([2, 2, 3, 4, 2, 8] * (nhelp // 6 + 1))[:nhelp])
+    yield ("usage threads (-h on the own command line: Handler::usage -> Singleton<Groups>), first use forced "
+           "through the sync points of instance() / free running"), \
+        [help_case(rng, "h%d" % i, n, 3, i % 3 != 2) for i, n in enumerate(hsizes)]
     sizes = sorted(([2, 3, 2, 4, 8, 2, 16, 4] * (nsat // 8 + 1))[:nsat])
     sat = [saturated_case(rng, "s%d" % i, n, reps if n <= 8 else max(3, reps // 2)) for i, n in enumerate(sizes)]
     for k in range(0, len(sat), 8):
